@@ -162,3 +162,8 @@ Fixpoint mask_write {A} (mask : list bool) (src dst : list A) : list A :=
   | m :: ms, s :: ss, d :: ds => (if m then s else d) :: mask_write ms ss ds
   | _, _, _ => dst
   end.
+(* numpy reshape(-1, 2), 2-D gather, row-wise argmax and m[rows, cols] (uniform_tournament_crossover) *)
+Fixpoint pairs2 (l : list Z) : list (list Z) := match l with a :: b :: t => [a; b] :: pairs2 t | _ => [] end.
+Definition gather2Q (f : list Q) (m : list (list Z)) : list (list Q) := map (gatherQz f) m.
+Definition argmax_rows (m : list (list Q)) : list Z := map argmaxZ m.
+Definition pick2 (m : list (list Z)) (rows cols : list Z) : list Z := map (fun p => get2 m (fst p) (snd p)) (combine rows cols).
